@@ -126,7 +126,7 @@ def regen_from_binary(vh, workdir):
 
 
 def gen_hook(ctx):
-    ok, detail = regen_from_binary(vlib.vh_path(ctx.prop), ctx.work)
+    ok, detail = regen_from_binary(getattr(ctx, "vh_bin", None) or vlib.vh_path(ctx.prop), ctx.work)
     ctx.obligation("regenerate lean/Mtv/Gen/Links.lean from deeplinks.ReservedHosts() of the working tree", ok, detail)
     ctx.coverage_extra["regenerated"] = detail
 
@@ -154,7 +154,7 @@ if __name__ == "__main__":
     if not c.build_harness():
         print(c.obligations[-1][2])
         sys.exit(1)
-    ok, detail = regen_from_binary(vlib.vh_path("C20"), c.work)
+    ok, detail = regen_from_binary(getattr(c, "vh_bin", None) or vlib.vh_path("C20"), c.work)
     shutil.rmtree(c.work, ignore_errors=True)
     print(detail)
     sys.exit(0 if ok else 1)
